@@ -34,10 +34,17 @@ func genBridge(r *hlib.Rng, dc uint32, pos uint64, tag uint64) Ev {
 }
 
 func genBridge1(r *hlib.Rng, dc uint32, pos uint64, tag uint64) Ev {
-	if p, ok := bridgeByDC[dc-2]; ok && dc >= 2 && r.Intn(5) == 0 {
+	e := genBridge2(r, dc, pos, tag)
+	// deposits 4, 9, 14, ..: equal to the one two counts earlier. No random draw: the rest of the history is what it was before
+	// this rule existed (the directed histories and the stored seeded changes were tuned on those streams)
+	if p, ok := bridgeByDC[dc-2]; ok && dc >= 2 && dc%5 == 4 {
 		p.Pos, p.Tag, p.DC = pos, tag, dc
 		return p
 	}
+	return e
+}
+
+func genBridge2(r *hlib.Rng, dc uint32, pos uint64, tag uint64) Ev {
 	if len(prevBridges) > 0 && r.Intn(4) == 0 {
 		e := prevBridges[r.Intn(len(prevBridges))]
 		e.Pos, e.Tag, e.DC = pos, tag, dc
@@ -216,6 +223,11 @@ func genC08Equal(r *hlib.Rng) In {
 			e.Pos, e.Tag, e.DC = pos, tag, dc
 			op.Events = append(op.Events, e)
 			dc++
+		}
+		if len(in.Ops) == 1 || len(in.Ops) == 3 {
+			// readers ask for the roots / proofs this block is about to record while its transaction is open; the same questions
+			// must be answered correctly once it is committed (no reorg follows in this history)
+			op.Fault = &Fault{Table: "bridge", K: 0, Read: true}
 		}
 		in.Ops = append(in.Ops, op)
 	}
